@@ -441,7 +441,7 @@ def gen_from_jobs(ctx, root, full):
                     head = before + indent + 'from' + spaces + typed
                     ln = head.count('\n') + 1
                     col = len(head) - (head.rfind('\n') + 1)
-                    tails = ['', '\nz = 3\n']
+                    tails = ['', '\nz = 3\n'] if full else ['']
                     rest = path[k:]
                     tails.append(rest + ' import value\n')            # the same cursor in a complete statement
                     for tail in tails:
@@ -824,10 +824,13 @@ def corpus_jobs(root):
         ident_l = id_suffix_ref(left)
         m = re.match(r'\w*', line[col:])
         ident = ident_l + (m.group() if m else '')
-        jobs.append({'tag': 'corpus', 'text': text, 'filename': None, 'root': root, 'dump': True, 'cls': 'corpus',
-                     'tmpl': c['_file'],
-                     'targets': [{'kind': c.get('kind', 'text'), 'ln': ln, 'start': col - len(ident_l), 'ident': ident,
-                                  'col': col, 'ctx': 'corpus/' + c.get('note', '')[:40]}]})
+        tgt = {'kind': c.get('kind', 'text'), 'ln': ln, 'start': col - len(ident_l), 'ident': ident,
+               'col': col, 'ctx': 'corpus/' + c.get('note', '')[:40]}
+        for k in ('must_return', 'package', 'known'):
+            if k in c:
+                tgt[k] = c[k]
+        jobs.append({'tag': 'corpus', 'text': text, 'filename': None, 'relfile': c.get('relfile'), 'root': root, 'dump': True,
+                     'cls': 'corpus', 'tmpl': c['_file'], 'targets': [tgt]})
     return jobs
 
 
@@ -863,7 +866,7 @@ def run(ctx):
     fjobs = gen_from_jobs(ctx, root, full)
     jobs += fjobs
     cov['from_branch_positions'] = sum(1 for j in fjobs for t in j['targets'] if t['kind'] == 'from')
-    nfiles = ctx.pick(36, 100000)
+    nfiles = ctx.pick(28, 100000)
     files = stdlib_files(limit=nfiles, rng=ctx.rng)
     skipped = {}
     for fn in files:
@@ -944,7 +947,7 @@ def run(ctx):
         seen.add(key)
         pterms.append(prefix_term(r))
         pkeep.append((j, r))
-    cap = ctx.pick(2500, 40000)
+    cap = ctx.pick(2000, 40000)
     if len(pterms) > cap:
         idx = sorted(ctx.rng.sample(range(len(pterms)), cap))
         pterms = [pterms[i] for i in idx]
